@@ -97,6 +97,18 @@ Qed.
 Lemma enc_old_refuted : exists t t', t <> t' /\ length t = length t' /\ enc_old t = enc_old t'.
 Proof. exists [[49%N]; [49%N; 49%N]], [[49%N; 49%N]; [49%N]]. repeat split. discriminate. Qed.
 
+(* the length prefix WITHOUT the separator is not injective either: ("0","AAAAAAAA3xyz") and ("12AAAAAAAA","xyz")
+   both give "1012AAAAAAAA3xyz" (the first reads 1|0|12|AAAAAAAA3xyz, the second 10|12AAAAAAAA|3|xyz) *)
+Definition nosep_t1 : list str :=
+  [[48]; [65; 65; 65; 65; 65; 65; 65; 65; 51; 120; 121; 122]]%N.
+Definition nosep_t2 : list str :=
+  [[49; 50; 65; 65; 65; 65; 65; 65; 65; 65]; [120; 121; 122]]%N.
+Lemma enc_nosep_refuted : exists t t', t <> t' /\ length t = length t' /\ enc_nosep t = enc_nosep t'.
+Proof. exists nosep_t1, nosep_t2. split; [discriminate|]. split; vm_compute; reflexivity. Qed.
+(* ... while the real encoding keeps the two apart *)
+Example enc_separates_nosep_witness : enc nosep_t1 <> enc nosep_t2.
+Proof. vm_compute. discriminate. Qed.
+
 Section WithHash.
   Variable h : str -> cell.
 
@@ -114,6 +126,10 @@ Section WithHash.
   Lemma old_aliases : exists t t', t <> t' /\ length t = length t' /\ h (enc_old t) = h (enc_old t').
   Proof.
     destruct enc_old_refuted as [t [t' [Hne [Hl E]]]]. exists t, t'. repeat split; auto. rewrite E. reflexivity.
+  Qed.
+  Lemma nosep_aliases : exists t t', t <> t' /\ length t = length t' /\ h (enc_nosep t) = h (enc_nosep t').
+  Proof.
+    destruct enc_nosep_refuted as [t [t' [Hne [Hl E]]]]. exists t, t'. repeat split; auto. rewrite E. reflexivity.
   Qed.
 End WithHash.
 
